@@ -121,9 +121,33 @@ pub fn deep_chain(depth: usize) -> Vec<SRule> {
     rules
 }
 
+/// dozens of detections matching one event, severities at the cap and far above it: the sum is capped, never wrapped,
+/// and nothing overflows on the way
+pub fn many_matching(rng: &mut Rng, out: &mut dyn FnMut(Value)) {
+    for (n, sevs) in [(26usize, vec![10u64]), (30, vec![9]), (40, vec![10, 9, 255]), (64, vec![255]), (100, vec![10, 0, 1]), (300, vec![7, 10])] {
+        let rules: Vec<SRule> = (0..n)
+            .map(|i| SRule {
+                name: format!("m{i:03}"),
+                ty: Some(if i % 11 == 10 { "filter" } else { "detection" }.into()),
+                ops: vec![("$a".into(), Operand::Test { segs: fpath(0), op: 0, lit: Lit::sq("1") })],
+                cond: Some(Form::V("$a".into())),
+                severity: Some(sevs[i % sevs.len()]),
+                ..Default::default()
+            })
+            .collect();
+        let events = vec![
+            DynEvent { source: "s".into(), id: 1, fields: vec![(fpath(0), s1("1"))] },
+            DynEvent { source: "s".into(), id: 1, fields: vec![(fpath(0), s1("0"))] },
+            DynEvent { source: "s".into(), id: 1, fields: vec![] },
+        ];
+        out(scenario_json(&rules, &events, rng, "dozens of detections matching one event"));
+    }
+}
+
 /// C07: arbitrary types, severities 0..255, overlapping / empty / mixed-case sets x all subsets matching
 pub fn gen_c07(tier: &str, seed: u64, out: &mut dyn FnMut(Value)) {
     let mut rng = Rng::new(seed);
+    many_matching(&mut rng, out);
     let n_sets = if tier == "thorough" { 20000 } else { 1000 };
     for _ in 0..n_sets {
         let n = 1 + rng.below(6);
@@ -218,6 +242,31 @@ pub fn gen_c12(tier: &str, seed: u64, out: &mut dyn FnMut(Value)) {
         }
         out(serde_json::json!({"op": "history_meta", "n_rules": n_rules, "events": events, "tag": "implementation only: used engine vs pristine clone, > 65536 rules", "nt": true}));
     }
+    // a wide rule (`any of them` / `N of them` over 16..20 operands) on one engine: which operand decided the previous
+    // event must not matter for the next one (a missing field earlier in the order is an error, whatever matched before)
+    for k in 0..(if tier == "thorough" { 2000 } else { 150 }) {
+        let w = 16 + rng.below(5);
+        let ops: Vec<(String, Operand)> = (0..w).map(|i| (format!("$k{i:02}"), Operand::Test { segs: vec![format!("k{i}")], op: 0, lit: Lit::sq("1") })).collect();
+        let cond = match k % 4 {
+            0 | 1 => Form::Any(None),
+            2 => Form::N(1 + rng.below(3) as u64, None),
+            _ => Form::Or(Box::new(Form::Any(Some("$k0".into()))), Box::new(Form::Any(Some("$k1".into())))),
+        };
+        let r = SRule { name: "wide".into(), ops, cond: Some(cond), ..Default::default() };
+        let len = 3 + rng.below(6);
+        let events: Vec<DynEvent> = (0..len)
+            .map(|_| {
+                let hit = rng.below(w);
+                let missing = if rng.chance(1, 2) { Some(rng.below(w)) } else { None };
+                DynEvent {
+                    source: "s".into(),
+                    id: 1,
+                    fields: (0..w).filter(|i| Some(*i) != missing).map(|i| (vec![format!("k{i}")], s1(if i == hit { "1" } else { "0" }))).collect(),
+                }
+            })
+            .collect();
+        out(scenario_json(&[r], &events, &mut rng, "wide rule, event sequence on one engine"));
+    }
     // two events of one kind separated by exactly 2^k - 1, 2^k, 2^k + 1 scans of another kind that never looks at the
     // dependency (any per-scan stamp or counter kept in a narrow integer comes round again)
     for gap in if tier == "thorough" { vec![127u64, 254, 255, 256, 257, 511, 65534, 65535, 65536, 65537, 131071] } else { vec![254u64, 255, 256, 65534, 65535, 65536] } {
@@ -256,6 +305,16 @@ pub fn gen_c12(tier: &str, seed: u64, out: &mut dyn FnMut(Value)) {
 /// C13: S, supersets S+T, and dependency-respecting permutations of S
 pub fn gen_c13(tier: &str, seed: u64, out: &mut dyn FnMut(Value)) {
     let mut rng = Rng::new(seed);
+    // more unrelated rules than a 16-bit index can address, loaded before or after the rules that matter: the two
+    // engines must agree on every event (implementation only; the model's side is `C13_load_order`)
+    for n_rules in if tier == "thorough" { vec![65_540usize, 131_080] } else { vec![65_540usize] } {
+        let mut events = vec![];
+        for i in 0..8 {
+            let id = [1i64, 2, 1, 3, 1, 2, 1, 1][i];
+            events.push(serde_json::json!({"source": "s", "id": id, "fields": [[["x"], {"s": if i % 3 == 2 { "0" } else { "1" }}], [["y"], {"s": if i % 4 == 3 { "0" } else { "1" }}]]}));
+        }
+        out(serde_json::json!({"op": "history_meta", "n_rules": n_rules, "two_orders": true, "events": events, "tag": "implementation only: unrelated rules loaded before / after, > 65536 rules", "nt": true}));
+    }
     // long dependency chains, alone and next to an unrelated rule that happens to use a rule low in the chain and is
     // visited first (higher severity): the top of the chain is reported or not whatever else is loaded, wherever
     {
@@ -336,6 +395,24 @@ pub fn gen_c13(tier: &str, seed: u64, out: &mut dyn FnMut(Value)) {
 /// C09: every operator with every literal kind it accepts x events with any FieldValue whatsoever
 pub fn gen_c09(tier: &str, seed: u64, out: &mut dyn FnMut(Value)) {
     let mut rng = Rng::new(seed);
+    many_matching(&mut rng, out);
+    // more distinct (source, id) pairs on one engine than any bounded table of them would hold
+    {
+        let rules = vec![
+            SRule { name: "a".into(), match_on: Some(serde_json::json!([["s", []]])), ops: vec![("$a".into(), Operand::Test { segs: fpath(0), op: 0, lit: Lit::sq("1") })], cond: Some(Form::V("$a".into())), ..Default::default() },
+            SRule { name: "b".into(), ops: vec![("$a".into(), Operand::Test { segs: fpath(0), op: 0, lit: Lit::sq("0") })], cond: Some(Form::V("$a".into())), severity: Some(2), ..Default::default() },
+        ];
+        for (n, by_source) in [(2100usize, false), (4200, false), (1100, true)] {
+            let events: Vec<DynEvent> = (0..n)
+                .map(|i| DynEvent {
+                    source: if by_source { format!("s{i}") } else { "s".into() },
+                    id: if by_source { 1 } else { i as i64 - 50 },
+                    fields: vec![(fpath(0), s1(if i % 3 == 0 { "0" } else { "1" }))],
+                })
+                .collect();
+            out(scenario_json(&rules, &events, &mut rng, "thousands of distinct (source, id) pairs on one engine"));
+        }
+    }
     // the C03 product already feeds every value kind to every operator; here: rule sets under scan
     crate::props::c03::gen(tier, seed, out);
     let weird = [
@@ -371,13 +448,42 @@ pub fn gen_c09(tier: &str, seed: u64, out: &mut dyn FnMut(Value)) {
 pub fn exec_history_meta(case: &Value) -> Value {
     use std::fmt::Write as _;
     let n = case["n_rules"].as_u64().unwrap_or(1000) as usize;
-    let mut y = String::with_capacity(n * 90);
+    let fillers_last = case["fillers_last"].as_bool().unwrap_or(false);
+    let mut fill = String::with_capacity(n * 90);
     for i in 0..n.saturating_sub(3) {
-        let _ = write!(y, "---\nname: f{i}\nmatch-on: {{events: {{other: [7]}}}}\nmatches: {{$a: \".x == '1'\"}}\ncondition: $a\n");
+        let _ = write!(fill, "---\nname: f{i}\nmatch-on: {{events: {{other: [7]}}}}\nmatches: {{$a: \".x == '1'\"}}\ncondition: $a\n");
     }
-    y.push_str("---\nname: dep.last\ntype: dependency\nmatches: {$a: \".x == '1'\"}\ncondition: $a\n");
-    y.push_str("---\nname: any.s\nmatch-on: {events: {s: []}}\nmatches: {$a: \".x == '1'\"}\ncondition: $a\nseverity: 3\n");
-    y.push_str("---\nname: uses.dep\nmatch-on: {events: {s: [1, 2]}}\nmatches: {$d: \"rule(dep.last)\", $b: \".y == '1'\"}\ncondition: $d and $b\nseverity: 2\n");
+    let mut core = String::new();
+    core.push_str("---\nname: dep.last\ntype: dependency\nmatches: {$a: \".x == '1'\"}\ncondition: $a\n");
+    core.push_str("---\nname: any.s\nmatch-on: {events: {s: []}}\nmatches: {$a: \".x == '1'\"}\ncondition: $a\nseverity: 3\n");
+    core.push_str("---\nname: uses.dep\nmatch-on: {events: {s: [1, 2]}}\nmatches: {$d: \"rule(dep.last)\", $b: \".y == '1'\"}\ncondition: $d and $b\nseverity: 2\n");
+    // the unrelated rules before the three that matter (indexes beyond 2^16), or after them
+    let y = if fillers_last { format!("{core}{fill}") } else { format!("{fill}{core}") };
+    if case["two_orders"].as_bool().unwrap_or(false) {
+        // the same rules in the other load order: every event must get the identical outcome (C13)
+        let y2 = if fillers_last { format!("{fill}{core}") } else { format!("{core}{fill}") };
+        let build = |t: &str| -> Result<gene::Engine, Value> {
+            let mut c = gene::Compiler::new();
+            c.load_rules_from_str(t).map_err(|e| json!({"load": format!("{e:?}")}))?;
+            gene::Engine::try_from(c).map_err(|e| json!({"compile": format!("{e:?}")}))
+        };
+        let (mut e1, mut e2) = match (build(&y), build(&y2)) {
+            (Ok(a), Ok(b)) => (a, b),
+            (Err(e), _) | (_, Err(e)) => return e,
+        };
+        for (i, ev) in case["events"].as_array().cloned().unwrap_or_default().iter().enumerate() {
+            let ev = match crate::event::event_from_json(ev) {
+                Ok(e) => e,
+                Err(e) => return json!({ "badevent": e }),
+            };
+            let a = crate::scenario::scan_outcome(&mut e1, &ev);
+            let b = crate::scenario::scan_outcome(&mut e2, &ev);
+            if a != b {
+                return json!({"differs": {"event": i, "one order": a, "other order": b}});
+            }
+        }
+        return json!({"consistent": true});
+    }
     let mut c = gene::Compiler::new();
     if let Err(e) = c.load_rules_from_str(&y) {
         return json!({"load": format!("{e:?}")});
